@@ -9,7 +9,7 @@ states)` is called once per reachable call terminator with the final states
 from . import mirq
 
 
-def run(cfg, init, transfer, bool_filter=None, observe=None, max_iter=10000):
+def run(cfg, init, transfer, bool_filter=None, observe=None, max_iter=10000, stmt_transfer=None):
     instate = {0: set(init)}
     edge_filter = {}
     if bool_filter is not None:
@@ -30,6 +30,9 @@ def run(cfg, init, transfer, bool_filter=None, observe=None, max_iter=10000):
         it += 1
         b = work.pop()
         st = set(instate.get(b, set()))
+        if stmt_transfer is not None:
+            for stmt in cfg.blocks[b]["s"]:
+                st = set(stmt_transfer(stmt, st))
         t = cfg.term(b)
         if t["k"] == "Call":
             st = set(transfer(t, st))
@@ -48,5 +51,9 @@ def run(cfg, init, transfer, bool_filter=None, observe=None, max_iter=10000):
     if observe is not None:
         for u, t in cfg.calls():
             if u in instate:
-                observe(u, t, instate[u])
+                st = set(instate[u])
+                if stmt_transfer is not None:
+                    for stmt in cfg.blocks[u]["s"]:
+                        st = set(stmt_transfer(stmt, st))
+                observe(u, t, st)
     return instate
